@@ -34,6 +34,7 @@ class HyperstatTarget(DiscreteTarget):
             default_stat=self.default_stat,
             damage_logic=self.damage_logic,
             hyperstat_prototype=self._hyperstat_prototype,
+            armor=self.armor,
         )
         target.set_state(self.state)
 
